@@ -911,7 +911,8 @@ def q12(rep):
             cfg = common.CFG(fn)
             for it in its:
                 n += 1
-                # the variable that receives the verdict
+                # verdict carriers: the variable assigned from the call (non-zero = did not converge), and Booleans derived
+                # from it (`converged = (i == 0)`); the call may also be tested directly
                 p_ = par.get(it["id"])
                 while p_ is not None and p_["k"] in ("ParenExpr", "ImplicitCastExpr", "CStyleCastExpr"):
                     p_ = par.get(p_["id"])
@@ -920,39 +921,62 @@ def q12(rep):
                     l = strip(p_["c"][0])
                     if l is not None and l["k"] == "DeclRefExpr":
                         var = l["n"]
+                carriers = {var: True} if var else {}         # name -> True when a true value means NOT converged
+
+                def pol(c, it=it, carriers=carriers):
+                    c = strip(c)
+                    if c is None:
+                        return None
+                    if c.get("id") == it["id"]:
+                        return True
+                    if c["k"] == "DeclRefExpr":
+                        return carriers.get(c["n"])
+                    if c["k"] == "UnaryOperator" and c["op"] == "!":
+                        v = pol(c["c"][0])
+                        return None if v is None else (not v)
+                    if c["k"] == "BinaryOperator" and c["op"] in ("!=", "==", ">") and const_value(c["c"][1]) == 0:
+                        v = pol(c["c"][0])
+                        return None if v is None else (v if c["op"] != "==" else (not v))
+                    if c["k"] == "BinaryOperator" and c["op"] == "=":
+                        return pol(c["c"][1])
+                    return None
+                grew = True
+                while grew:
+                    grew = False
+                    for x in walk(fn["body"]):
+                        tgt = rhs = None
+                        if x["k"] == "BinaryOperator" and x["op"] == "=":
+                            l = strip(x["c"][0])
+                            if l is not None and l["k"] == "DeclRefExpr":
+                                tgt, rhs = l["n"], x["c"][1]
+                        elif x["k"] == "DeclStmt":
+                            for d in x.get("decls", []):
+                                if d.get("init") is not None and d["n"] not in carriers and pol(d["init"]) is not None and \
+                                        strip(d["init"]).get("id") != it["id"]:
+                                    carriers[d["n"]] = pol(d["init"]); grew = True
+                        if tgt and tgt not in carriers and rhs is not None and strip(rhs) is not None and strip(rhs).get("id") != it["id"]:
+                            v = pol(rhs)
+                            if v is not None:
+                                carriers[tgt] = v; grew = True
                 key = "unconverged-results-dropped:%s:%s" % (u, name)
                 where = "%s:%d (%s)" % (u, it["l"], name)
-                if var is None:
-                    rep.violation("Q12", key, where, "the verdict of %s (non-zero: stopped at the iteration limit) is not kept: the "
-                                  "sets are used whether or not the iteration converged" % it.get("callee"))
-                    continue
                 ev = cfg.events(lambda e, it=it: e.get("id") == it["id"])
                 if not ev:
                     raise AnalysisBroken("%s %s: the dataflow call is not in the CFG" % (u, name))
                 b0, i0, _ = ev[0]
 
-                def side(bid, succ, var=var):
+                def side(bid, succ, pol=pol):
                     """at a test of the verdict follow only the did-not-converge successor"""
                     ce = cfg.cond_edges(bid)
                     if ce is None or ce[0] is None:
                         return True
-                    c = strip(ce[0])
-                    if c is None:
+                    v = pol(ce[0])
+                    if v is None:
                         return True
-                    pol = None          # True: condition true means NOT converged
-                    if c["k"] == "DeclRefExpr" and c["n"] == var:
-                        pol = True
-                    elif c["k"] == "UnaryOperator" and c["op"] == "!" and (strip(c["c"][0]) or {}).get("n") == var:
-                        pol = False
-                    elif c["k"] == "BinaryOperator" and c["op"] in ("!=", "==", ">") and const_value(c["c"][1]) == 0 and \
-                            (strip(c["c"][0]) or {}).get("n") == var:
-                        pol = c["op"] != "=="
-                    if pol is None:
-                        return True
-                    return succ == (ce[1] if pol else ce[2])
+                    return succ == (ce[1] if v else ce[2])
 
-                def reassigned(e, var=var):
-                    if e["k"] == "BinaryOperator" and e["op"] == "=":
+                def reassigned(e, var=var, p_=p_):
+                    if var is not None and e["k"] == "BinaryOperator" and e["op"] == "=":
                         l = strip(e["c"][0])
                         return l is not None and l["k"] == "DeclRefExpr" and l["n"] == var and e.get("id") != p_["id"]
                     return False
@@ -962,7 +986,7 @@ def q12(rep):
                         not (e.get("callee") or "").lower().endswith("free") and e.get("callee") is not None
                 pth = cfg.path_avoiding(b0, consumer, reassigned, src_idx=i0, edge_ok=side)
                 if pth is None:
-                    rep.ok("Q12", key, sample={"verdict in": var} if n <= 2 else None)
+                    rep.ok("Q12", key, sample={"verdict in": sorted(k for k in carriers if k) or "the condition itself"} if n <= 2 else None)
                 else:
                     hit = None
                     for e in cfg.elems(pth[-1]):
@@ -970,12 +994,12 @@ def q12(rep):
                             hit = e
                             break
                     rep.violation("Q12", key, where,
-                                  "when %s stops at its iteration limit (verdict `%s` non-zero) %s still reaches %s (line %s): the "
+                                  "when %s stops at its iteration limit (verdict %s) %s still reaches %s (line %s): the "
                                   "reaching sets are incomplete then -- a definition more blocks upstream than the limit has not "
                                   "arrived -- and whatever is computed from them (use/def chains that substitute constants, "
                                   "propagated copies, removed assignments) is wrong for functions with very long chains of blocks "
                                   "only, at the optimisation levels that run this pass"
-                                  % (it.get("callee"), var, name, hit.get("callee") if hit else "a consumer", hit["l"] if hit else "?"),
+                                  % (it.get("callee"), ("`%s` non-zero" % var) if var else "non-zero", name, hit.get("callee") if hit else "a consumer", hit["l"] if hit else "?"),
                                   detail={"cfg_path": pth[:10]})
     rep.floor("callers of the iteration-limited dataflow engine", n, 7)
 
